@@ -3,6 +3,7 @@ package metadata
 import (
 	"context"
 	"strings"
+	"time"
 
 	"github.com/KafScale/platform/pkg/protocol"
 )
@@ -53,4 +54,31 @@ func VsymC22_MetadataKeys() {
 func VsymC22_Twin() {
 	a := vsymTopicName("a", 2)
 	vsym_Assert(vsymNeq(offsetKey(a, 0), offsetKey("ab", 0)), "C22/twin")
+}
+
+// VsymC22_EtcdDelete: through the real EtcdStore over the etcd model — deleting topic a leaves
+// every etcd key of topic b (partition offsets, consumer offsets) in place.
+func VsymC22_EtcdDelete() {
+	if vsym_Symbolic() {
+		vsym_Override("time.Now", func() time.Time { return time.Unix(1700000000, 0) })
+	}
+	ctx := context.Background()
+	a := vsymTopicName("a", vsym_Param("la"))
+	b := vsymTopicName("b", vsym_Param("lb"))
+	e := newVsymEtcd()
+	st := &EtcdStore{client: e.client("store"), metadata: NewInMemoryStore(ClusterMetadata{Brokers: []protocol.MetadataBroker{{NodeID: 1}}}), available: 1}
+	_, errA := st.CreateTopic(ctx, TopicSpec{Name: a, NumPartitions: 1, ReplicationFactor: 1})
+	_, errB := st.CreateTopic(ctx, TopicSpec{Name: b, NumPartitions: 1, ReplicationFactor: 1})
+	if errA != nil || errB != nil {
+		vsym_Reach("rejected")
+		return
+	}
+	vsym_Reach("accepted")
+	vsym_Assert(st.UpdateOffsets(ctx, a, 0, 6) == nil && st.UpdateOffsets(ctx, b, 0, 41) == nil, "C22/etcd-offsets-written")
+	vsym_Assert(st.CommitConsumerOffset(ctx, "g", b, 0, 17, "") == nil, "C22/etcd-consumer-offset-written")
+	vsym_Assert(st.DeleteTopic(ctx, a) == nil, "C22/etcd-delete-topic")
+	next, err := st.NextOffset(ctx, b, 0)
+	vsym_Assert(err == nil && next == 42, "C22/etcd-delete-of-one-topic-keeps-the-other-topics-offsets")
+	off, _, err := st.FetchConsumerOffset(ctx, "g", b, 0)
+	vsym_Assert(err == nil && off == 17, "C22/etcd-delete-of-one-topic-keeps-the-other-topics-consumer-offsets")
 }
